@@ -159,7 +159,7 @@ class C06(Harness):
         return True, mode == 'on_init', deps, mlvl
 
     OPS = [['set', 'x', 1], ['set', 'x', 0], ['set', 'y', 1], ['update', [['x', 2], ['y', 2]]], ['update', [['x', 0]]], ['batch', [['x', 3], ['y', 3]]],
-           ['bounds', 1], ['bounds', 0], ['batchmix', None], ['batchupd', None], ['batchraise', None], ['batchslot', None]]
+           ['bounds', 1], ['bounds', 0], ['batchmix', None], ['batchupd', None], ['batchraise', None], ['batchslot', None], ['batchfix', None]]
 
     def apply(self, param, obj, op, st):
         k = op[0]
@@ -194,6 +194,18 @@ class C06(Harness):
             with param.parameterized.batch_call_watchers(obj):
                 obj.x = 8
                 obj.param.n.bounds = (2, 8)
+        elif k == 'batchfix':
+            # a queued user watcher corrects the value it is told about: the flush of the batch needs a second round,
+            # in which the method sees a second, separate change of x
+            def fix(event):
+                if event.new == 20:
+                    obj.x = 21
+            h = obj.param.watch(fix, ['x'], queued=True)
+            try:
+                with param.parameterized.batch_call_watchers(obj):
+                    obj.x = 20
+            finally:
+                obj.param.unwatch(h)
 
     def changed(self, op, st):
         """model: which (name, what) change; updates st"""
@@ -214,6 +226,9 @@ class C06(Harness):
             if st['bounds'] != nb:
                 ch.add(('n', 'bounds'))
             st['bounds'] = nb
+        elif k == 'batchfix':
+            setv('x', 20)
+            setv('x', 21)
         elif k == 'batchmix':
             setv('x', 7)
             setv('y', 7)
@@ -311,6 +326,8 @@ class C06(Harness):
                         break
                     ch = self.changed(op, st)
                     exp = 1 if (watching and (ch & deps)) else 0
+                    if op[0] == 'batchfix':
+                        exp *= 2          # two separate changes of x, dispatched in two rounds of one flush
                     calls = [e for e in log if e[0] == 'm']
                     hits['expected-call' if exp else 'expected-silence'] += 1
                     if (len(calls) == 2 and exp == 1 and op[0] == 'batchslot' and {w for _, w in (ch & deps)} == {'value', 'bounds'}
